@@ -415,6 +415,12 @@ def rule_COMPOSE(ctx):
                       isinstance(t, ast.Subscript) and isinstance(t.value, ast.Name) and
                       t.value.id == pt
                       for t in (st.targets if isinstance(st, ast.Assign) else [st.target]))]
+    keep = ('np.asarray', 'np.array', 'np.atleast_1d', 'np.atleast_2d', 'np.copy',
+            'np.ascontiguousarray', 'np.asanyarray')
+    rebind = [st for st in rebind if not (
+        isinstance(st, ast.Assign) and isinstance(st.value, ast.Call) and
+        dotted(st.value.func) in keep and st.value.args and
+        isinstance(st.value.args[0], ast.Name) and st.value.args[0].id == pt)]
     direct = all(c.args and isinstance(c.args[0], ast.Name) and c.args[0].id == pt for c in inner)
     ok = direct and not rebind
     bad = rebind[0] if rebind else inner[0]
